@@ -14,8 +14,9 @@
   STRICTLY after `patched` (a run whose patch ends exactly on a grid point skips that point).
   After a non-final failure the delay is counted from `ended` (`delayed = now + delay` is stamped by
   `with_outcomes` before the patch), so the next start is `max patched (ended + delay)`.
-  A permanent failure does NOT end the timer: `state.done` is true for it and the interval branches
-  apply as after a success (`permanent_reruns_witness`; docs/timers.rst says it "stops forever").
+  A run that failed for good is the timer's last run (`permanent_is_last`, `failed_is_last`): the state
+  is kept, nothing is awakened any more; the loop itself keeps sleeping (or breaks, for a one-shot).
+  The stopper is not modelled: it truncates a run sequence (every loop is guarded by it, `stopperGuards`).
 -/
 import Kopf.Lemmas.C10_Timer
 namespace Kopf.C10
@@ -45,7 +46,7 @@ theorem no_overlap (cfg : Cfg) (view : View) (spawn : Int) (rs : List Run) (h : 
         (no_overlap_step cfg view r r'.start hw hn).2⟩)
       rs r hwf hc n a b ha hb
 
-/-! ### after a successful (or otherwise final) run: the interval -/
+/-! ### after a successful run: the interval -/
 
 /-- Non-sharp timers: the loop is back at its top exactly `interval` after the post-run patch ended,
     and the next run starts there unless the idle gate postpones it:
@@ -64,7 +65,7 @@ theorem interval_law (cfg : Cfg) (view : View) (r : Run) (t' i : Int)
         (∀ v, (∀ u, r.patched + i ≤ u → view u = v) → t' = max (r.patched + i) (v + idle))) := by
   have hw : wake cfg r = .at (r.patched + i) := by
     unfold wake; rw [hd]; simp only [hi, hs]; simp [sleepUntil_pos hpos]
-  unfold Next at h; rw [hw] at h; simp only at h
+  unfold Next at h; replace h := h.2; rw [hw] at h; simp only at h
   have hge := h.ge
   have := hwf.2
   refine ⟨by omega, hge, fun hn => Gate.no_idle hn h, fun idle hidle => ⟨?_, Gate.form hidle h, fun v hq => Gate.quiet hidle hq h⟩⟩
@@ -94,7 +95,7 @@ theorem sharp_grid (cfg : Cfg) (view : View) (r : Run) (t' i : Int)
     unfold wake; rw [hd]; simp only [hi, hs]
     have : 0 < i - (r.patched - r.start) % i := by omega
     simp [sleepUntil_pos this]
-  unfold Next at h; rw [hw] at h; simp only at h
+  unfold Next at h; replace h := h.2; rw [hw] at h; simp only at h
   refine ⟨((r.patched - r.start) / i).toNat + 1, by omega, ?_⟩
   have hk : (((r.patched - r.start) / i).toNat + 1 : Nat) * i = i * ((r.patched - r.start) / i) + i := by
     rw [Int.natCast_add, Int.toNat_of_nonneg hq, Int.add_mul, Int.mul_comm]; omega
@@ -116,7 +117,7 @@ theorem error_delay_law (cfg : Cfg) (view : View) (r : Run) (t' d : Int)
     (cfg.idle = none → t' = max r.patched (r.ended + d)) := by
   have hw : wake cfg r = .at (max r.patched (r.ended + d)) := by
     unfold wake; rw [hd]; simp only; rw [sleep_stateDelay]
-  unfold Next at h; rw [hw] at h; simp only at h
+  unfold Next at h; replace h := h.2; rw [hw] at h; simp only at h
   have := h.ge
   exact ⟨h, by omega, by omega, fun hn => Gate.no_idle hn h⟩
 
@@ -186,7 +187,7 @@ theorem idle_only_law (cfg : Cfg) (view : View) (r : Run) (t' idle : Int)
     (h : Next cfg view r t') :
     ∃ p, r.patched ≤ p ∧ p ≤ t' ∧ r.start < view p ∧ idle ≤ t' - view t' := by
   have hw : wake cfg r = .poll idle := by unfold wake; rw [hd]; simp only [hn, hi]
-  unfold Next at h; rw [hw] at h; simp only at h
+  unfold Next at h; replace h := h.2; rw [hw] at h; simp only at h
   obtain ⟨p, hp, hg⟩ := h
   exact ⟨p, hp.ge, hg.ge, hp.seen, Gate.idle_ok hi hg⟩
 
@@ -195,33 +196,51 @@ theorem one_shot (cfg : Cfg) (view : View) (r : Run) (t' : Int)
     (hn : cfg.interval = none) (hi : cfg.idle = none) (hd : r.out cfg = .done) :
     ¬ Next cfg view r t' := by
   have hw : wake cfg r = .stop := by unfold wake; rw [hd]; simp only [hn, hi]
-  unfold Next; rw [hw]; exact fun h => h
+  unfold Next; rw [hw]; exact fun h => h.2
 
 /-! ### the retry counter along a sequence -/
 
 /-- the `retry` kwarg restarts from 0 after every final run and counts up through a retry series -/
 theorem attempt_law (cfg : Cfg) (view : View) (spawn : Int) (rs : List Run) (h : Sched cfg view spawn rs)
     (n : Nat) (a b : Run) (ha : rs[n]? = some a) (hb : rs[n + 1]? = some b) :
-    b.attempt = (match a.out cfg with | .done => 0 | .retry _ => a.attempt + 1) := by
+    b.attempt = (match a.out cfg with | .retry _ => a.attempt + 1 | _ => 0) := by
   cases rs with
   | nil => simp at ha
   | cons r rs =>
     obtain ⟨_, hwf, _, hc⟩ := h
     exact Chain.consecutive (cfg := cfg) (view := view)
-      (P := fun a b => b.attempt = (match a.out cfg with | .done => 0 | .retry _ => a.attempt + 1))
+      (P := fun a b => b.attempt = (match a.out cfg with | .retry _ => a.attempt + 1 | _ => 0))
       (fun r r' _ _ _ hat => by rw [hat]; rfl) rs r hwf hc n a b ha hb
 
-/-! ### a clause of the documentation that is false of the code -/
+/-! ### after a run that failed for good: the timer is over -/
 
-/-- docs/timers.rst: "For PermanentError, the timer stops forever and is not retried." The code treats
-    a permanent failure as `state.done` and goes on with the interval: here a run that raised
-    `PermanentError` at t=100 is followed by a run at t=100+128. -/
-theorem permanent_reruns_witness :
-    let cfg : Cfg := { interval := some 128, sharp := false, idle := none, initialDelay := none, backoff := 64 }
-    let r : Run := { start := 100, ended := 100, patched := 100, attempt := 0, res := .permanent }
-    Next cfg (fun _ => 0) r 228 := by
-  intro cfg r
-  exact nextStartN_sound (extends_total _) (n := 4) (by decide)
+/-- docs/timers.rst: "For PermanentError, the timer stops forever and is not retried." One step: a run
+    that failed for good (PermanentError, an arbitrary error under errors=PERMANENT, retries exhausted —
+    `classify_permanent`) has no successor run, whatever the configuration and the object's changes. -/
+theorem permanent_is_last (cfg : Cfg) (view : View) (r : Run) (t' : Int) (hf : r.out cfg = .failed) :
+    ¬ Next cfg view r t' := fun h => h.1 hf
+
+/-- … hence in every run sequence a run that failed for good is the last one. -/
+theorem failed_is_last (cfg : Cfg) (view : View) (spawn : Int) (rs : List Run) (h : Sched cfg view spawn rs)
+    (n : Nat) (a : Run) (ha : rs[n]? = some a) (hf : a.out cfg = .failed) : rs[n + 1]? = none := by
+  cases hb : rs[n + 1]? with
+  | none => rfl
+  | some b =>
+    exfalso
+    cases rs with
+    | nil => simp at ha
+    | cons r rs =>
+      obtain ⟨_, hwf, _, hc⟩ := h
+      exact Chain.consecutive (cfg := cfg) (view := view) (P := fun a _ => a.out cfg ≠ .failed)
+        (fun _ _ _ _ hn _ => hn.1) rs r hwf hc n a b ha hb hf
+
+/-- which results fail for good -/
+theorem classify_permanent (cfg : Cfg) (attempt : Nat) :
+    classify cfg attempt .permanent = .failed ∧
+    (cfg.errors = .permanent → classify cfg attempt .arbitrary = .failed) ∧
+    (lookaheadRetries cfg attempt = true → ∀ d, classify cfg attempt (.temporary d) = .failed) ∧
+    (lookaheadRetries cfg attempt = true → cfg.errors = .temporary → classify cfg attempt .arbitrary = .failed) := by
+  refine ⟨rfl, fun he => by simp [classify, he], fun hl d => by simp [classify, hl], fun hl he => by simp [classify, he, hl]⟩
 
 /-! ### non-vacuity: concrete instances meeting the hypotheses -/
 
@@ -266,8 +285,12 @@ example : Next cfgI view0 rI 596 := nextStartN_sound (extends_total _) (n := 8) 
 
 -- arbitrary error → backoff
 example : classify cfgA 0 .arbitrary = .retry (some 64) := by decide
--- retries = 2: the second failure is final
-example : classify { cfgA with retries := some 2 } 1 (.temporary (some 40)) = .done := by decide
+-- retries = 2: the second failure is final, and nothing follows it although the loop goes on sleeping
+example : classify { cfgA with retries := some 2 } 1 (.temporary (some 40)) = .failed := by decide
+private def rP : Run := { start := 100, ended := 100, patched := 100, attempt := 0, res := .permanent }
+example : rP.out cfgA = .failed ∧ wake cfgA rP = .at 228 ∧ nextStartN cfgA (fun t => some (view0 t)) 8 rP = .never := by decide
+-- a one-shot timer that failed for good: the loop breaks
+example : nextStartN { cfgI with idle := none } (fun t => some (view0 t)) 8 rP = .ended := by decide
 
 end Examples
 
